@@ -22,7 +22,9 @@ import time
 import traceback
 
 ENV_SOCK = "VERIF_ALT_SOCK"
+ENV_OPT_SOCK = "VERIF_OPT_SOCK"  # a third template: python -O (assert statements stripped), yet another hash seed
 _proc = None
+_procs = {}
 
 
 def _registry():
@@ -105,18 +107,26 @@ def serve(sock_path: str):
         pass
 
 
-def start(sock_path: str, hashseed: int):
-    """Launch the server (does not wait for it to be ready)."""
+def start(sock_path: str, hashseed: int, optimize: bool = False):
+    """Launch a server (does not wait for it to be ready)."""
     global _proc
     verif = os.path.dirname(os.path.dirname(os.path.abspath(__file__)))
     env = {**os.environ, "PYTHONHASHSEED": str(hashseed), "PYTHONPATH": verif}
-    _proc = subprocess.Popen([sys.executable, "-m", "sim.altserver", sock_path], stdin=subprocess.PIPE, stdout=subprocess.PIPE,
-                             stderr=subprocess.DEVNULL, env=env, cwd=verif)
-    os.environ[ENV_SOCK] = sock_path
-    return _proc
+    env.pop("PYTHONOPTIMIZE", None)
+    argv = [sys.executable] + (["-O"] if optimize else []) + ["-m", "sim.altserver", sock_path]
+    p = subprocess.Popen(argv, stdin=subprocess.PIPE, stdout=subprocess.PIPE, stderr=subprocess.DEVNULL, env=env, cwd=verif)
+    if optimize:
+        _procs["opt"] = p
+        os.environ[ENV_OPT_SOCK] = sock_path
+    else:
+        _procs["alt"] = p
+        _proc = p
+        os.environ[ENV_SOCK] = sock_path
+    return p
 
 
-def wait_ready(timeout=120.0):
+def wait_ready(timeout=120.0, which="alt"):
+    _proc = _procs.get(which)
     if _proc is None:
         return False
     deadline = time.monotonic() + timeout
@@ -138,22 +148,23 @@ def wait_ready(timeout=120.0):
 
 def stop():
     global _proc
-    if _proc is not None:
+    for which, p in list(_procs.items()):
         try:
-            _proc.stdin.close()
+            p.stdin.close()
         except OSError:
             pass
         try:
-            _proc.wait(timeout=10)
+            p.wait(timeout=10)
         except subprocess.TimeoutExpired:
-            _proc.kill()
-        _proc = None
+            p.kill()
+        _procs.pop(which, None)
+    _proc = None
 
 
-def call(name: str, args, timeout=150.0):
-    path = os.environ.get(ENV_SOCK)
+def call(name: str, args, timeout=150.0, which="alt"):
+    path = os.environ.get(ENV_OPT_SOCK if which == "opt" else ENV_SOCK)
     if not path:
-        return ("error", "no alternate-interpreter server (VERIF_ALT_SOCK unset)")
+        return ("error", f"no alternate-interpreter server for '{which}'")
     try:
         c = socket.socket(socket.AF_UNIX, socket.SOCK_STREAM)
         c.connect(path)
